@@ -60,6 +60,7 @@ CHUNK = 250  # runs per worker process (workers are recycled: DESIGN.md §3.9)
 # remaining chunks are not started (the deaths already seen are triaged as usual).
 MAX_WORKER_DEATHS = 24
 _deaths = [0]
+_max_deaths = [MAX_WORKER_DEATHS]
 _deaths_lock = threading.Lock()
 # C17: exhaustive enumeration of the failing request k over the scenario corpus (yaepsim --oomenum).
 # quick enumerates a seeded slice of the corpus, thorough all of it, in both flavours.
@@ -138,7 +139,7 @@ def run_chunk(exe, mode, focus, a, b, want_shapes):
     guard = 0
     while cur < b and guard < 64:
         guard += 1
-        if _deaths[0] >= MAX_WORKER_DEATHS:
+        if _deaths[0] >= _max_deaths[0]:
             out["abandoned"] = b - cur
             break
         if len(out["crashes"]) >= 6:
@@ -289,6 +290,15 @@ def enum_summary(enum_batches, n_scen):
     return res
 
 
+def chain_file(prop, flavour, binary, mode, focus, lo, hi, why):
+    """A violation that needs the preceding runs of its worker process: the replay file names the seed range."""
+    tag = hashlib.sha1(("%s%s%s%d%d" % (flavour, mode, binary, lo, hi)).encode()).hexdigest()[:10]
+    path = os.path.join(REPLAYS, "%s-chain-%s.plan" % (prop, tag))
+    with open(path, "w") as f:
+        f.write("# %s\nyaepsim-chain 1\nchain flavour=%s binary=%s mode=%s focus=%d from=%d to=%d\n" % (why, flavour, binary, mode, focus, lo, hi + 1))
+    return path
+
+
 def sh(cmd, timeout=900):
     p = subprocess.run(cmd, stdout=subprocess.PIPE, stderr=subprocess.STDOUT, timeout=timeout)
     return p.returncode, p.stdout.decode("utf-8", "replace")
@@ -338,6 +348,8 @@ def main():
         # seed blocks: pool seed = seed >> 8, so VERIF_SEED moves every batch to fresh pools
         seed0 = (seed * 64 + i * 7 + focus) << 24
         batches.append(Batch(label, flavour, binary, mode, focus, runs, seed0))
+    # the cap scales with the size of the check: known finding KF-1 alone kills about one worker in 4000 runs
+    _max_deaths[0] = MAX_WORKER_DEATHS + sum(b.runs for b in batches) // 1500
     enum_batches = []
     n_scen = 0
     if prop in ENUM:
@@ -372,6 +384,7 @@ def main():
             b.shapes.update(r["shapes"])
             if len(b.samples) < 2:
                 b.samples += r["samples"]
+            b.abandoned = getattr(b, "abandoned", 0) + r.get("abandoned", 0)
             if "sceninfo" in r:
                 b.sceninfo += r["sceninfo"]
     t_run = time.time() - t0 - t_build
@@ -409,8 +422,8 @@ def main():
         fresh3 = run_chunk(b.exe, b.mode, b.focus, s, s + 1, False)["hashes"].get(s)
         chain2 = run_chunk(b.exe, b.mode, b.focus, lo, s + 1, False)["hashes"].get(s)
         if fresh2 == fresh3 and chain2 == b.hashes[s] and fresh2 != chain2:
-            cross_run.append(("C14/depends_on_earlier_runs/%s" % b.mode, "chain:%s:%s:%d:%d-%d" % (b.flavour, b.mode, b.focus, lo, s),
-                              "run %d behaves differently after runs %d..%d of the same process than in a fresh process" % (s, lo, s - 1)))
+            why = "run %d behaves differently after runs %d..%d of the same process than in a fresh process" % (s, lo, s - 1)
+            cross_run.append(("C14/depends_on_earlier_runs/%s" % b.mode, chain_file("C14", b.flavour, b.binary, b.mode, b.focus, lo, s, why), why))
         else:
             machinery_audit.append((label, s))
     audit_bad_seeds = machinery_audit
@@ -466,8 +479,8 @@ def main():
             if cls != "CRASH" and cls not in set1:
                 # the violation depends on earlier runs of the same worker process (history across runs)
                 chain_lo = b.seed0 + ((s - b.seed0) // CHUNK) * CHUNK
-                violations.append((cls, "chain:%s:%s:%d:%d-%d" % (b.flavour, b.mode, b.focus, chain_lo, s),
-                                   "only reproduces after the preceding runs of the same worker process: " + detail))
+                why = "only reproduces after the preceding runs of the same worker process: " + detail
+                violations.append((cls, chain_file(prop, b.flavour, b.binary, b.mode, b.focus, chain_lo, s, why), why))
                 continue
             if not mine:
                 for c, _ in c1:
@@ -552,6 +565,7 @@ def main():
                                   "deterministic_dependence_on_earlier_runs": len(cross_run)},
             "candidates_triaged": n_triaged,
             "worker_deaths_in_batches": deaths_in_batches,
+            "runs_abandoned_after_death_cap": sum(getattr(b, "abandoned", 0) for b in batches),
             "non_gating_probe_results": probe_counts,
             "violations_of_other_properties_seen": other_props,
             "known_findings_observed": known_hits,
